@@ -5,6 +5,8 @@ CONSTANTS
   Byz = {4}
   MaxByz = 2
   MaxDup = 1
+  MaxLen = 6
+  Focus = "shares"
   AsCoded = FALSE
-INVARIANTS TypeOK OnlyValidShares ThresholdImpliesValidGroupSig OneFaultTolerated BeaconFollowsBlock
+INVARIANTS TypeOK OnlyValidShares ThresholdImpliesValidGroupSig OneFaultTolerated BeaconFollowsBlock KeyTableGenuine
 CHECK_DEADLOCK FALSE
